@@ -80,7 +80,8 @@ def check_property_file(pid):
         if b.startswith("Closed under"):
             res.append((name, []))
         else:
-            ax = re.findall(r"^([A-Za-z_][\w.']*)\s*:", b, re.M)
+            # every line of the block that starts in column 0 with an identifier names an axiom
+            ax = [m for m in re.findall(r"^([A-Za-z_][\w.']*)", b, re.M) if m != "Axioms"]
             res.append((name, ax))
             for a in ax:
                 if a not in ALLOWED_AXIOMS:
